@@ -121,6 +121,15 @@ def qq_normal(expr, extra_rel=(), want_den=False):
     """numerator of expr in Q[atoms] reduced modulo the axiom relations and `extra_rel`
     (pairs (lead**deg, replacement)).  Returns (poly_as_sympy, atoms)  -- 0 means identity."""
     expr = sp.sympify(expr)
+    # degree-1 relations are definitions  lead == rhs : apply them as rewriting rules (order independent, triangular chains allowed)
+    lin = {r_[0]: sp.sympify(r_[2]) for r_ in extra_rel if r_[1] == 1}
+    if lin:
+        for _ in range(12):
+            new = expr.xreplace(lin)
+            if new == expr:
+                break
+            expr = new
+        extra_rel = [r_ for r_ in extra_rel if r_[1] != 1]
     rel = []
     atoms = _collect_atoms([expr])
     # closure: relations may introduce new atoms (e.g. cos_ from sin_)
